@@ -320,8 +320,11 @@ def recreated_running_case(ctx, index):
     runs = [(x.label, x.start, x.end if x.end is not None else inf) for x in res.runs]
     info["x_commands"] = sum(1 for x in res.runs if x.label == xlabel)
     info["sub_executions"] = sum(1 for x in res.runs if x.label == "./sub.py")
+    # the history of the known finding: the creator was executed again while a command of X was running
+    subs = sorted(a for l, a, b in runs if l == "./sub.py")
+    info["creator_rerun_while_x_ran"] = any(a < t < b for t in subs[1:] for l, a, b in runs if l == xlabel)
     if res.status != "done":
-        mech = ":running-step-recreated" if info["x_commands"] > 1 else ""
+        mech = ":running-step-recreated" if info["x_commands"] > 1 or info["creator_rerun_while_x_ran"] else ""
         found.append((f"director-{res.status}{mech}",
                       f"the build ended with status {res.status}: {(res.error or '')[-200:]}", info))
         return found, info
@@ -335,7 +338,7 @@ def recreated_running_case(ctx, index):
     peak = _peak(held)
     info["peak_token"] = peak
     if peak > 1:
-        mech = ":running-step-recreated" if info["x_overlap"] or info["x_commands"] > 1 else ""
+        mech = ":running-step-recreated" if info["x_overlap"] or info["x_commands"] > 1 or info["creator_rerun_while_x_ran"] else ""
         found.append(("resource-limit-exceeded" + mech,
                       f"{peak} units of token in use at once by running commands with 1 available "
                       f"({info['x_commands']} commands of the step X, {info['sub_executions']} executions of its creator)",
